@@ -282,6 +282,11 @@ class VSock:
         if self.closed:
             raise OSError(9, "Bad file descriptor")
         data = bytes(data)
+        stall = getattr(self, "send_stalls_from", None)
+        if stall is not None and self.answered and self.w.now >= stall - 1e-12:
+            # the peer has stopped reading and the send buffer is full: the write times out (nothing reaches the wire)
+            self.log.append((self.w.now, "wfail", data))
+            raise socket.timeout("timed out")
         self.log.append((self.w.now, "w", data))
         self.written += data
         if self.answered and self.pong_latency is not None and len(data) >= 2 and (data[0] & 0x0F) == 9:
